@@ -75,6 +75,41 @@ Definition spec_compare (o : binop) (a b : Z) : outcome value :=
   | _ => Unmodelled
   end.
 
+(* strings that spell whole numbers compare as the numbers they spell: a canonical decimal numeral is "0" or a
+   non-zero digit followed by digits, with an optional minus in front, of at most 15 digits *)
+Definition spec_digitval (b : byte) : option Z :=
+  let n := Z.of_N (byte_to_N b) in if ((48 <=? n) && (n <=? 57))%Z then Some (n - 48)%Z else None.
+Fixpoint spec_numdigits (acc : Z) (s : bytes) : option Z :=
+  match s with
+  | [] => Some acc
+  | b :: r => match spec_digitval b with Some d => spec_numdigits (acc * 10 + d)%Z r | None => None end
+  end.
+Definition spec_unsigned_numeral (s : bytes) : option Z :=
+  match s with
+  | [] => None
+  | b :: r =>
+      if (15 <? length s)%nat then None
+      else match spec_digitval b with
+           | Some 0%Z => match r with [] => Some 0%Z | _ => None end       (* no leading zeros *)
+           | Some _ => spec_numdigits 0 s
+           | None => None
+           end
+  end.
+Definition spec_numeral (s : bytes) : option Z :=
+  match s with
+  | b :: r =>
+      if (byte_to_N b =? 45)%N
+      then match spec_unsigned_numeral r with Some 0%Z => None | Some z => Some (- z)%Z | None => None end
+      else spec_unsigned_numeral s
+  | [] => None
+  end.
+Definition spec_num (v : value) : option Z :=
+  match v with
+  | VInt z => Some z
+  | VStr s => spec_numeral s
+  | _ => None
+  end.
+
 Definition spec_equal (a b : value) : option bool :=
   match a, b with
   | VInt x, VInt y => Some (x =? y)%Z
@@ -106,7 +141,7 @@ Definition spec_binop (o : binop) (a b : value) : outcome value :=
   | BAdd | BSub | BMul | BDiv | BMod | BPow =>
       match a, b with VInt x, VInt y => spec_arith o x y | _, _ => Unmodelled end
   | BLt | BGt | BLe | BGe =>
-      match a, b with VInt x, VInt y => spec_compare o x y | _, _ => Unmodelled end
+      match spec_num a, spec_num b with Some x, Some y => spec_compare o x y | _, _ => Unmodelled end
   | BEq => match spec_equal a b with Some r => Ok (VBool r) | None => Unmodelled end
   | BNe => match spec_equal a b with Some r => Ok (VBool (negb r)) | None => Unmodelled end
   | BConcat => match spec_show a, spec_show b with
